@@ -178,15 +178,28 @@ type entry struct {
 }
 
 type scriptReader struct {
-	script []entry
-	pos    int
-	off    int
-	log    []string
+	script  []entry
+	pos     int
+	off     int
+	log     []string
+	viaFile bool     // the reader is the FILE under a fileConn: log the errors as fileConn must hand them on
+	misc    []string // calls other than Read (only when used as a file)
+}
+
+func (s *scriptReader) code(err error) string {
+	if s.viaFile {
+		return fileErrCode("read", err)
+	}
+	return errCode(err)
 }
 
 func (s *scriptReader) Read(p []byte) (int, error) {
 	if s.pos >= len(s.script) {
-		s.log = append(s.log, "z")
+		if s.viaFile {
+			s.log = append(s.log, "e"+s.code(io.EOF))
+		} else {
+			s.log = append(s.log, "z")
+		}
 		return 0, io.EOF
 	}
 	e := s.script[s.pos]
@@ -202,17 +215,106 @@ func (s *scriptReader) Read(p []byte) (int, error) {
 	switch {
 	case e.err == nil:
 		s.log = append(s.log, "d"+hex.EncodeToString(p[:n]))
-	case n == 0 && e.err == io.EOF:
+	case n == 0 && e.err == io.EOF && !s.viaFile:
 		s.log = append(s.log, "z")
 	case n == 0:
-		s.log = append(s.log, "e"+errCode(e.err))
+		s.log = append(s.log, "e"+s.code(e.err))
 	default:
-		s.log = append(s.log, "x"+errCode(e.err)+":"+hex.EncodeToString(p[:n]))
+		s.log = append(s.log, "x"+s.code(e.err)+":"+hex.EncodeToString(p[:n]))
 	}
 	return n, e.err
 }
 
 func (s *scriptReader) Close() error { return nil }
+
+// the rest of the `file` interface of fileconn.go
+func (s *scriptReader) Write(b []byte) (int, error) {
+	s.misc = append(s.misc, "Write")
+	return len(b), nil
+}
+func (s *scriptReader) SetDeadline(time.Time) error {
+	s.misc = append(s.misc, "SetDeadline")
+	return nil
+}
+func (s *scriptReader) SetReadDeadline(time.Time) error {
+	s.misc = append(s.misc, "SetReadDeadline")
+	return nil
+}
+func (s *scriptReader) SetWriteDeadline(time.Time) error {
+	s.misc = append(s.misc, "SetWriteDeadline")
+	return nil
+}
+
+// ---------------------------------------------------------------- fileConn (the connection behind Dial("can"))
+
+var opBase = map[string]int{"read": 0x100, "write": 0x200, "set write deadline": 0x300, "set read deadline": 0x400,
+	"set deadline": 0x500, "close": 0x600}
+
+func plainCode(err error) int {
+	c, e := strconv.ParseInt(errCode(err), 16, 32)
+	if e != nil {
+		return -1
+	}
+	return int(c)
+}
+
+// what a transparent fileConn returns for operation op when its file returned fileErr: a *net.OpError
+// for that operation around the file's error, one *os.PathError level removed
+func fileErrCode(op string, fileErr error) string {
+	if fileErr == nil {
+		return "-"
+	}
+	inner := fileErr
+	if pe, ok := fileErr.(*os.PathError); ok {
+		inner = pe.Err
+	}
+	c := plainCode(inner)
+	if c < 0 {
+		panic("harness: scripted file error without a code")
+	}
+	return fmt.Sprintf("%x", opBase[op]+c)
+}
+
+// the code of an error that came out of the code under test on a fileConn of the given network:
+// kinds are compared, not texts
+func connErrCode(err error, network string) string {
+	if err == nil {
+		return "-"
+	}
+	var oe *net.OpError
+	if !errors.As(err, &oe) {
+		return "?"
+	}
+	base, ok := opBase[oe.Op]
+	c := plainCode(oe.Err)
+	if !ok || oe.Net != network || c < 0 {
+		return "?"
+	}
+	return fmt.Sprintf("%x", base+c)
+}
+
+// Receiver.Err() on a fileConn: the scanner's own errors are not wrapped
+func viaErrCode(err error) string {
+	switch c := errCode(err); c {
+	case "-", "1", "2", "3", "4", "5":
+		return c
+	}
+	return connErrCode(err, "can")
+}
+
+// every second scripted error comes as an *os.PathError, the way os.File reports it
+func withPathErrors(script []entry) []entry {
+	s := append([]entry(nil), script...)
+	k := 0
+	for i := range s {
+		if s[i].err != nil {
+			if k++; k%2 == 0 {
+				s[i].err = &os.PathError{Op: "read", Path: "/dev/can0", Err: s[i].err}
+			}
+		}
+	}
+	return s
+}
 
 func safeReceive(r *socketcan.Receiver) (ok bool, panicked bool) {
 	defer func() {
@@ -233,14 +335,20 @@ func icptStr(fs []can.Frame) string {
 
 // runs the idiomatic client loop until Receive has returned false twice (the second call shows
 // that reception stays ended); returns the read log and the events
-func runScript(script []entry) ([]string, []string) {
+func runScript(script []entry, viaFile bool) ([]string, []string) {
 	total := 0
 	for _, e := range script {
 		total += len(e.data)
 	}
-	rd := &scriptReader{script: script}
+	rd := &scriptReader{script: script, viaFile: viaFile}
+	var rc io.ReadCloser = rd
+	code := errCode
+	if viaFile {
+		rc = socketcan.VerifFileConn(rd, "can", nil, nil)
+		code = viaErrCode
+	}
 	var icpt []can.Frame
-	r := socketcan.NewReceiver(rd, socketcan.ReceiverFrameInterceptor(func(f can.Frame) { icpt = append(icpt, f) }))
+	r := socketcan.NewReceiver(rc, socketcan.ReceiverFrameInterceptor(func(f can.Frame) { icpt = append(icpt, f) }))
 	var events []string
 	stops := 0
 	limit := total/16 + 4
@@ -258,20 +366,35 @@ func runScript(script []entry) ([]string, []string) {
 		if ok {
 			events = append(events, "T:"+icptStr(icpt)+":"+frameStr(r.Frame())+":"+b01(r.HasErrorFrame())+":"+errFrameStr(r.ErrorFrame()))
 		} else {
-			events = append(events, "F:"+icptStr(icpt)+":"+frameStr(r.Frame())+":"+errCode(r.Err()))
+			events = append(events, "F:"+icptStr(icpt)+":"+frameStr(r.Frame())+":"+code(r.Err()))
 			stops++
 			if stops == 2 {
 				break
 			}
 		}
 	}
+	for _, m := range rd.misc { // the Receiver must only Read
+		events = append(events, "!"+m)
+	}
 	return rd.log, events
 }
 
+// every script runs on a Receiver reading the scripted connection directly; every viaEvery-th
+// (every one while viaAll is set) ALSO on a Receiver on the real fileConn over the scripted file
+var (
+	nScripts int
+	viaEvery = 4
+	viaAll   bool
+)
+
 func emitScript(script []entry) {
-	log, events := runScript(script)
+	log, events := runScript(script, false)
 	n := len(events)
 	fmt.Fprintf(out, "S %d %s | %s\n", n, strings.Join(log, " "), strings.Join(events, " "))
+	if nScripts++; viaAll || nScripts%viaEvery == 0 {
+		log, events = runScript(withPathErrors(script), true)
+		fmt.Fprintf(out, "SF %d %s | %s\n", len(events), strings.Join(log, " "), strings.Join(events, " "))
+	}
 }
 
 // ---------------------------------------------------------------- fake connection
@@ -854,7 +977,8 @@ func c07(seed int64, thorough bool) {
 			}
 		}
 	}
-	// 4. an error (without / with data) at every read index
+	// 4. an error (without / with data) at every read index (all of them also through fileConn)
+	viaAll = true
 	errs := []error{inj(1), io.EOF, inj(2), io.ErrNoProgress, io.ErrUnexpectedEOF}
 	ne := 0
 	nextErr := func() error {
@@ -894,6 +1018,7 @@ func c07(seed int64, thorough bool) {
 			}
 		}
 	}
+	viaAll = false
 	// 5. runs of empty reads: 1, 99, 100 (tolerated), 101, 150 (io.ErrNoProgress)
 	for _, run := range []int{1, 2, 50, 99, 100, 101, 102, 150} {
 		for nf := 0; nf <= 3; nf++ {
@@ -950,6 +1075,8 @@ func c07(seed int64, thorough bool) {
 	c07process(rng, thorough)
 	// 9. Write failing with real error kinds x every byte count 0..16, later Writes of the call succeed
 	emitTransmitFaults(rng, randFrame, thorough)
+	// 11. a Transmitter and a Receiver on one shared connection of every kind Dial returns
+	c07shared(rng, thorough)
 	// 10. goroutines sharing one Transmitter: each pending Write must carry its own frame
 	rounds := 10
 	if thorough {
@@ -1332,6 +1459,265 @@ func c07process(rng *rand.Rand, thorough bool) {
 	}
 }
 
+// ---------------------------------------------------------------- C07: a Transmitter and a Receiver on ONE connection
+
+// the file under a fileConn used in both directions: reads are scripted, everything else is the fake conn
+type duplexFile struct {
+	*fakeConn
+	rd *scriptReader
+}
+
+func (d *duplexFile) Read(p []byte) (int, error) { return d.rd.Read(p) }
+
+func randAnswers(rng *rand.Rand) txAnswers {
+	if rng.Intn(2) == 0 {
+		return txAnswers{dl: rng.Intn(2) == 0, writeN: 16}
+	}
+	a := comboAnswers(rng.Intn(40))
+	if rng.Intn(3) == 0 && a.writeAns != nil {
+		a.writeAns = realErrs[rng.Intn(len(realErrs))]
+	}
+	if rng.Intn(3) == 0 && a.deadlineAns != nil {
+		a.deadlineAns = realErrs[rng.Intn(len(realErrs))]
+	}
+	return a
+}
+
+// kind can: fileConn on a fake file; transmit faults must not end reception, read faults must not
+// disturb transmission, and a transmit deadline must reach SetWriteDeadline of the file only
+func emitSharedFile(rng *rand.Rand) {
+	fc := &fakeConn{}
+	rd := &scriptReader{script: withPathErrors(mscript(rng, 1)), viaFile: true}
+	conn := socketcan.VerifFileConn(&duplexFile{fakeConn: fc, rd: rd}, "can", nil, nil)
+	tx := socketcan.NewTransmitter(conn, socketcan.TransmitterFrameInterceptor(func(f can.Frame) {
+		fc.events = append(fc.events, "I"+frameStr(f))
+	}))
+	var icpt []can.Frame
+	rx := socketcan.NewReceiver(conn, socketcan.ReceiverFrameInterceptor(func(f can.Frame) { icpt = append(icpt, f) }))
+	var ops, obs []string
+	stops, ntx := 0, 0
+	for n := 0; n < 60 && (stops < 2 || ntx < 2); n++ {
+		fc.events = fc.events[:0]
+		if stops >= 2 || rng.Intn(2) == 0 {
+			a := randAnswers(rng)
+			f := randFrame(rng)
+			fc.deadlineAns, fc.writeAns, fc.writeN, fc.laterOK, fc.nw = a.deadlineAns, a.writeAns, a.writeN, true, 0
+			ctx := context.Background()
+			cancel := func() {}
+			if a.dl {
+				fc.want = time.Now().Add(time.Duration(1+rng.Intn(1000)) * time.Hour)
+				ctx, cancel = context.WithDeadline(ctx, fc.want)
+			}
+			ops = append(ops, fmt.Sprintf("t%s;%s;%s;%x;%s;s", frameStr(f), b01(a.dl), fileErrCode("set write deadline", fc.deadlineAns),
+				fc.writeN, fileErrCode("write", fc.writeAns)))
+			err := tx.TransmitFrame(ctx, f)
+			cancel()
+			obs = append(obs, strings.Join(append(append([]string(nil), fc.events...), "R"+connErrCode(err, "can")), ","))
+			ntx++
+			continue
+		}
+		ops = append(ops, "r")
+		icpt = icpt[:0]
+		ok, panicked := safeReceive(rx)
+		var o string
+		switch {
+		case panicked:
+			o = "P"
+			stops = 2
+		case ok:
+			o = "T:" + icptStr(icpt) + ":" + frameStr(rx.Frame()) + ":" + b01(rx.HasErrorFrame()) + ":" + errFrameStr(rx.ErrorFrame())
+		default:
+			o = "F:" + icptStr(icpt) + ":" + frameStr(rx.Frame()) + ":" + viaErrCode(rx.Err())
+			stops++
+		}
+		for _, e := range fc.events { // calls the file saw during Receive, other than Read
+			o += ",!" + e
+		}
+		obs = append(obs, o)
+	}
+	fmt.Fprintf(out, "U can %s | %s | %s\n", strings.Join(ops, " "), strings.Join(rd.log, " "), strings.Join(obs, " "))
+}
+
+var sharedSkipped = map[string]int{}
+
+// the real connections Dial returns. udp: the multicast transceiver receives what it sends; tcp/unix:
+// a loopback peer echoes every byte. Returns nil if the sandbox does not offer that kind.
+func dialShared(rng *rand.Rand, kind string) (conn net.Conn, cleanup func()) {
+	cleanup = func() {}
+	switch kind {
+	case "udp":
+		c, err := socketcan.Dial("udp", fmt.Sprintf("239.%d.%d.%d:0", 64+rng.Intn(64), rng.Intn(256), 1+rng.Intn(254)))
+		if err != nil {
+			return nil, cleanup
+		}
+		return c, func() { _ = c.Close() }
+	case "tcp", "unix":
+		addr := "127.0.0.1:0"
+		dir := ""
+		if kind == "unix" {
+			d, err := os.MkdirTemp("", "verif-sock-")
+			if err != nil {
+				return nil, cleanup
+			}
+			dir = d
+			addr = dir + "/s"
+		}
+		rm := func() {
+			if dir != "" {
+				_ = os.RemoveAll(dir)
+			}
+		}
+		ln, err := net.Listen(kind, addr)
+		if err != nil {
+			rm()
+			return nil, cleanup
+		}
+		go func() {
+			peer, err := ln.Accept()
+			if err != nil {
+				return
+			}
+			_, _ = io.Copy(peer, peer)
+			_ = peer.Close()
+		}()
+		c, err := socketcan.Dial(kind, ln.Addr().String())
+		if err != nil {
+			_ = ln.Close()
+			rm()
+			return nil, cleanup
+		}
+		return c, func() { _ = c.Close(); _ = ln.Close(); rm() }
+	}
+	return nil, cleanup
+}
+
+// One connection, a Transmitter (contexts with and without deadline) and a Receiver: every frame sent
+// comes back; a transmit deadline that has passed must not end reception. Once a deadline was used
+// every later call carries one (TransmitFrame never clears the connection's write deadline).
+func emitSharedReal(rng *rand.Rand, kind string) {
+	conn, cleanup := dialShared(rng, kind)
+	if conn == nil {
+		sharedSkipped[kind]++
+		return
+	}
+	defer cleanup()
+	var txi []string
+	tx := socketcan.NewTransmitter(conn, socketcan.TransmitterFrameInterceptor(func(f can.Frame) { txi = append(txi, "I"+frameStr(f)) }))
+	var icpt []can.Frame
+	rx := socketcan.NewReceiver(conn, socketcan.ReceiverFrameInterceptor(func(f can.Frame) { icpt = append(icpt, f) }))
+	var ops, obs []string
+	sent, got := 0, 0
+	usedDeadline := false
+	receive := func() bool {
+		ops = append(ops, "r")
+		icpt = icpt[:0]
+		type res struct{ ok, panicked bool }
+		done := make(chan res, 1)
+		go func() {
+			ok, p := safeReceive(rx)
+			done <- res{ok, p}
+		}()
+		select {
+		case r := <-done:
+			got++
+			switch {
+			case r.panicked:
+				obs = append(obs, "P")
+				return false
+			case r.ok:
+				obs = append(obs, "T:"+icptStr(icpt)+":"+frameStr(rx.Frame())+":"+b01(rx.HasErrorFrame())+":"+errFrameStr(rx.ErrorFrame()))
+				return true
+			default:
+				c := causeCode(rx.Err())
+				var ne net.Error
+				if errors.As(rx.Err(), &ne) && ne.Timeout() {
+					c = "timeout"
+				}
+				obs = append(obs, "F:"+icptStr(icpt)+":"+frameStr(rx.Frame())+":"+c)
+				return false
+			}
+		case <-time.After(5 * time.Second):
+			obs = append(obs, "H")
+			return false
+		}
+	}
+	phases := 1 + rng.Intn(3)
+	for ph := 0; ph < phases; ph++ {
+		n := 1 + rng.Intn(4)
+		short := rng.Intn(3) != 0
+		for i := 0; i < n; i++ {
+			mode := 0
+			if usedDeadline || rng.Intn(2) == 0 {
+				mode = 1
+			}
+			if short && i == n-1 {
+				mode = 2
+			}
+			f := randFrame(rng)
+			ctx := context.Background()
+			cancel := func() {}
+			var deadline time.Time
+			switch mode {
+			case 1:
+				deadline = time.Now().Add(time.Hour)
+			case 2:
+				deadline = time.Now().Add(40 * time.Millisecond)
+			}
+			if mode != 0 {
+				usedDeadline = true
+				ctx, cancel = context.WithDeadline(ctx, deadline)
+			}
+			txi = txi[:0]
+			err := tx.TransmitFrame(ctx, f)
+			cancel()
+			if err != nil && mode == 2 && time.Now().After(deadline) {
+				sharedSkipped[kind+"-stalled"]++ // the process stalled past the short deadline: no verdict
+				return
+			}
+			ops = append(ops, fmt.Sprintf("t%s;%d", frameStr(f), mode))
+			obs = append(obs, strings.Join(append(append([]string(nil), txi...), "R"+causeCode(err)), ","))
+			if err != nil {
+				fmt.Fprintf(out, "U %s %s | | %s\n", kind, strings.Join(ops, " "), strings.Join(obs, " "))
+				return
+			}
+			sent++
+			if mode == 2 {
+				time.Sleep(time.Until(deadline) + 10*time.Millisecond)
+			} else if got < sent && rng.Intn(3) == 0 {
+				if !receive() {
+					fmt.Fprintf(out, "U %s %s | | %s\n", kind, strings.Join(ops, " "), strings.Join(obs, " "))
+					return
+				}
+			}
+		}
+		for got < sent {
+			if !receive() {
+				fmt.Fprintf(out, "U %s %s | | %s\n", kind, strings.Join(ops, " "), strings.Join(obs, " "))
+				return
+			}
+		}
+	}
+	fmt.Fprintf(out, "U %s %s | | %s\n", kind, strings.Join(ops, " "), strings.Join(obs, " "))
+}
+
+func c07shared(rng *rand.Rand, thorough bool) {
+	nfile, nreal := 600, 10
+	if thorough {
+		nfile, nreal = 12000, 60
+	}
+	for i := 0; i < nfile; i++ {
+		emitSharedFile(rng)
+	}
+	for i := 0; i < nreal; i++ {
+		for _, kind := range []string{"udp", "tcp", "unix"} {
+			emitSharedReal(rng, kind)
+		}
+	}
+	for k, n := range sharedSkipped {
+		fmt.Fprintf(os.Stderr, "verif_socketcan: %d shared-connection scenarios skipped: %s\n", n, k)
+	}
+}
+
 func randFrame(rng *rand.Rand) can.Frame {
 	f := can.Frame{Length: uint8(rng.Intn(9)), Data: dataOf(rng.Uint64()), IsRemote: rng.Intn(4) == 0}
 	if rng.Intn(2) == 0 {
@@ -1376,30 +1762,64 @@ func emitTransmit(rng *rand.Rand, n int, first int) {
 }
 
 func emitTransmitCalls(rng *rand.Rand, gen func(*rand.Rand) can.Frame, answers []txAnswers) {
-	conn := &fakeConn{}
+	emitTransmitCallsOn(rng, gen, answers, false)
+	if nTxSeqs++; nTxSeqs%3 == 0 {
+		emitTransmitCallsOn(rng, gen, answers, true)
+	}
+}
+
+var nTxSeqs int
+
+// viaFile: the Transmitter sits on the real fileConn and the fake conn is the FILE under it (every
+// second error answer as an *os.PathError); the connection's answers and the result are then given
+// by the codes a transparent fileConn produces
+func emitTransmitCallsOn(rng *rand.Rand, gen func(*rand.Rand) can.Frame, answers []txAnswers, viaFile bool) {
+	fc := &fakeConn{}
+	var conn net.Conn = fc
+	tag := "X"
+	if viaFile {
+		conn = socketcan.VerifFileConn(fc, "can", nil, nil)
+		tag = "XF"
+	}
 	tx := socketcan.NewTransmitter(conn, socketcan.TransmitterFrameInterceptor(func(f can.Frame) {
-		conn.events = append(conn.events, "I"+frameStr(f))
+		fc.events = append(fc.events, "I"+frameStr(f))
 	}))
 	var calls []string
-	for _, a := range answers {
+	for i, a := range answers {
 		f := gen(rng)
-		conn.deadlineAns, conn.writeAns, conn.writeN, conn.laterOK, conn.nw = a.deadlineAns, a.writeAns, a.writeN, a.laterOK, 0
+		fc.deadlineAns, fc.writeAns, fc.writeN, fc.laterOK, fc.nw = a.deadlineAns, a.writeAns, a.writeN, a.laterOK, 0
+		da, wa := errCode(fc.deadlineAns), errCode(fc.writeAns)
+		if viaFile {
+			if i%2 == 1 {
+				if fc.deadlineAns != nil {
+					fc.deadlineAns = &os.PathError{Op: "setdeadline", Path: "/dev/can0", Err: fc.deadlineAns}
+				}
+				if fc.writeAns != nil {
+					fc.writeAns = &os.PathError{Op: "write", Path: "/dev/can0", Err: fc.writeAns}
+				}
+			}
+			da, wa = fileErrCode("set write deadline", fc.deadlineAns), fileErrCode("write", fc.writeAns)
+		}
 		ctx := context.Background()
 		cancel := func() {}
 		if a.dl {
-			conn.want = time.Now().Add(time.Duration(1+rng.Intn(1000)) * time.Hour)
-			ctx, cancel = context.WithDeadline(ctx, conn.want)
+			fc.want = time.Now().Add(time.Duration(1+rng.Intn(1000)) * time.Hour)
+			ctx, cancel = context.WithDeadline(ctx, fc.want)
 		}
-		call := fmt.Sprintf("%s;%s;%s;%x;%s", frameStr(f), b01(a.dl), errCode(conn.deadlineAns), conn.writeN, errCode(conn.writeAns))
+		call := fmt.Sprintf("%s;%s;%s;%x;%s", frameStr(f), b01(a.dl), da, fc.writeN, wa)
 		if a.laterOK {
 			call += ";s"
 		}
 		calls = append(calls, call)
 		err := tx.TransmitFrame(ctx, f)
 		cancel()
-		conn.events = append(conn.events, "R"+causeCode(err))
+		if viaFile {
+			fc.events = append(fc.events, "R"+connErrCode(err, "can"))
+		} else {
+			fc.events = append(fc.events, "R"+causeCode(err))
+		}
 	}
-	fmt.Fprintf(out, "X %s | %s\n", strings.Join(calls, " "), strings.Join(conn.events, " "))
+	fmt.Fprintf(out, "%s %s | %s\n", tag, strings.Join(calls, " "), strings.Join(fc.events, " "))
 }
 
 // every real error kind x every byte count 0..16 x with/without deadline as the answer to the FIRST
